@@ -141,7 +141,7 @@ pub fn apply_action(a: &Action, parts: &mut PurlParts) -> Result<(), ShapeError>
 impl PurlShape for TestShape {
     type Error = ShapeError;
 
-    fn package_type(&self) -> Cow<str> {
+    fn package_type(&self) -> Cow<'_, str> {
         Cow::Owned(self.ty.to_ascii_lowercase())
     }
 
